@@ -25,6 +25,10 @@ def hostile_profiles(avoid):
                           illtyped=30, max_depth=3, stmts=(4, 12), uncaught=40, avoid=avoid))]
 
 
+def first_source(p):
+    return next((st[1] for st in p["steps"] if st[0] in ("snip", "keep")), "")
+
+
 def signature_of_abort(res):
     st = res["abort"]["status"]
     text = " ".join(str(x) for x in st)
@@ -80,7 +84,7 @@ def run(tier):
         if v.get("res") == "compile_error" and not p["name"].startswith("history/"):
             ck.count("programs_not_compiling")
             return
-        ck.note_nontrivial(p["steps"][0][1])
+        ck.note_nontrivial(repr(p["steps"])[:6000])
         ck.count("expected_error_outcomes", sum(1 for t in v.get("out", []) if t.endswith("Error>")))
 
     modelcheck.check_programs(ck, plist, opts={"gc": "always", "quarantine": 1}, on_result=seen, sig_prefix="Hostile")
@@ -98,12 +102,12 @@ def run(tier):
                     ck.inconclusive.append("watchdog fired on %s (%s) but did not reproduce" % (p["name"], cfg))
                     continue
                 ck.violation(signature_of_abort(res), {"program": p["name"], "config": cfg, "steps": p["steps"], "modules": p["mods"],
-                                                       "what": str(res["abort"])[:3000], "source": p["steps"][0][1]})
+                                                       "what": str(res["abort"])[:3000], "source": first_source(p)})
                 continue
             for msg, loc in common.panics_of(res):
                 ck.violation("Panic(%s @ %s)" % (msg[:80], loc.replace(common.REPO, "")), {
                     "program": p["name"], "config": cfg, "steps": p["steps"], "modules": p["mods"], "what": "%s @ %s" % (msg, loc),
-                    "source": p["steps"][0][1]})
+                    "source": first_source(p)})
             for st in res.get("steps", []):
                 if st.get("res") == "err" and not st.get("msgs"):
                     ck.violation("ErrorWithoutMessage", {"program": p["name"], "config": cfg, "steps": p["steps"], "modules": p["mods"],
